@@ -19,15 +19,20 @@ ResetTo(m, o) ==
 PrevWrapped == l > 1 /\ "dbg" \in DOMAIN TraceLog[l - 1]
                /\ TraceLog[l - 1].dbg.off + TraceLog[l - 1].dbg.len > TraceLog[l - 1].dbg.max
 
+\* a position given as "far" lies just below SIZE_MAX in the real call (sums with a length wrap around there);
+\* for the byte list it is simply a position beyond every content
+Far == 1000000000
+PosOf(ev) == IF "far" \in DOMAIN ev.arg /\ ev.arg.far = 1 THEN Far ELSE ev.arg.pos
+
 Step(ev) ==
   CASE ev.a = "init"     -> ResetTo(ev.arg.max, ev.arg.off)
     [] ev.a = "qpush"    -> QPush(ev.arg.data)
     [] ev.a = "qunshift" -> QUnshift(ev.arg.data)
     [] ev.a = "qpop"     -> QPop(ev.arg.n, ev.arg.buf, ev.obs.ret = "refused" /\ PrevWrapped)
     [] ev.a = "qshift"   -> QShift(ev.arg.n, ev.arg.buf, ev.obs.ret = "refused" /\ PrevWrapped)
-    [] ev.a = "crop"     -> Crop(ev.arg.pos, ev.arg.n)
-    [] ev.a = "set"      -> Set(ev.arg.pos, ev.arg.data, ev.arg.zero)
-    [] ev.a = "get"      -> Get(ev.arg.pos, ev.arg.n)
+    [] ev.a = "crop"     -> Crop(PosOf(ev), ev.arg.n)
+    [] ev.a = "set"      -> Set(PosOf(ev), ev.arg.data, ev.arg.zero)
+    [] ev.a = "get"      -> Get(PosOf(ev), ev.arg.n)
     [] ev.a = "align"    -> Align(ev.arg.pos)
     [] ev.a = "resize"   -> Resize(ev.arg.n)
     [] ev.a = "prepare"  -> Prepare(ev.arg.n, ev.dbg.max)
